@@ -147,6 +147,9 @@ func c11GenChain(r *vh.Rand, quick bool) *c11Case {
 			g.Nodes[cd.ni].Rerun = true
 		}
 	}
+	if r.Chance(40) {
+		c11AddLoop(r, l)
+	}
 	for i := 0; i < 8; i++ {
 		d := 0
 		if r.Chance(45) {
@@ -155,6 +158,91 @@ func c11GenChain(r *vh.Rand, quick bool) *c11Case {
 		c.Mods = append(c.Mods, d)
 	}
 	return c
+}
+
+// c11HasInterrupt: an interrupt point lies in graph level gi or below.
+func c11HasInterrupt(l *c11Layout, gi int) bool {
+	g := l.Graphs[gi]
+	if len(g.Before)+len(g.After) > 0 {
+		return true
+	}
+	for ni := range g.Nodes {
+		if g.Nodes[ni].Rerun {
+			return true
+		}
+	}
+	for sgi := range l.Graphs {
+		if l.GPar[sgi] == gi && c11HasInterrupt(l, sgi) {
+			return true
+		}
+	}
+	return false
+}
+
+// c11AddLoop: one Pregel cycle in one graph level (top-level or nested): after node LoopFrom a
+// branch leads back to node LoopTo 1-3 more times.  Preferred (75%): a cycle through a graph node
+// whose nested graph contains an interrupt point — the node is resumed in the middle of one
+// execution and executed again, as a fresh task, inside the resumed run; else a cycle through any
+// node of a level that has an interrupt point somewhere (a plain node with pre/post handlers, a
+// rerun node, a node behind an interrupt-before/after point).
+func c11AddLoop(r *vh.Rand, l *c11Layout) {
+	type cand struct{ gi, ni int }
+	var through, any []cand
+	for gi, g := range l.Graphs {
+		for ni := range g.Nodes {
+			n := &g.Nodes[ni]
+			if n.Sub != nil {
+				for sgi := range l.Graphs {
+					if l.GOwner[sgi] == l.GNodes[gi][ni] && c11HasInterrupt(l, sgi) {
+						through = append(through, cand{gi, ni})
+					}
+				}
+			}
+			if c11HasInterrupt(l, gi) {
+				any = append(any, cand{gi, ni})
+			}
+		}
+	}
+	pool := any
+	if len(through) > 0 && r.Chance(75) {
+		pool = through
+	}
+	if len(pool) == 0 {
+		return
+	}
+	// both placements: the level with the cycle is the top-level graph (resumed from the store) or
+	// a nested one (resumed from the checkpoint its parent hands down)
+	var nestedPool []cand
+	for _, cd := range pool {
+		if cd.gi > 0 {
+			nestedPool = append(nestedPool, cd)
+		}
+	}
+	if len(nestedPool) > 0 && r.Chance(45) {
+		pool = nestedPool
+	}
+	cd := pool[r.Intn(len(pool))]
+	g := l.Graphs[cd.gi]
+	g.Mode = "pregel" // only Pregel graphs may contain a cycle
+	g.LoopTo = r.Range(0, cd.ni)
+	g.LoopFrom = r.Range(cd.ni, len(g.Nodes)-1)
+	g.LoopN = r.Range(1, 3)
+	// every interrupt point inside the cycle fires once per iteration: keep the number of resumes small
+	points := 0
+	var count func(gi int)
+	count = func(gi int) {
+		sg := l.Graphs[gi]
+		points += len(sg.Before) + len(sg.After)
+		for sgi := range l.Graphs {
+			if l.GPar[sgi] == gi {
+				count(sgi)
+			}
+		}
+	}
+	count(cd.gi)
+	for g.LoopN > 1 && points*(g.LoopN+1) > 10 {
+		g.LoopN--
+	}
 }
 
 func c11Has(l []string, s string) bool {
@@ -284,6 +372,9 @@ func c11ResumeShape(c *c11Case) string {
 				break
 			}
 		}
+		if g.LoopN > 0 {
+			sb.WriteString(fmt.Sprintf("L%d-%dx%d", g.LoopTo, g.LoopFrom, g.LoopN))
+		}
 		if gi < len(l.Graphs)-1 {
 			sb.WriteString(".")
 		}
@@ -313,6 +404,22 @@ func c11ResumeAccount(ctx *vh.Ctx, c *c11Case) {
 		return
 	}
 	ctx.Res.Dist(fmt.Sprintf("resume:levels=%d", len(l.Graphs)))
+	for gi, g := range l.Graphs {
+		if g.LoopN > 0 {
+			where := "top"
+			if gi > 0 {
+				where = "nested"
+			}
+			through := "plain"
+			for ni := g.LoopTo; ni <= g.LoopFrom && ni < len(g.Nodes); ni++ {
+				if g.Nodes[ni].Sub != nil {
+					through = "graph-node"
+				}
+			}
+			ctx.Res.Dist("resume:loop=" + where + "/" + through)
+			ctx.Res.Dist(fmt.Sprintf("resume:loop-iterations=%d", g.LoopN+1))
+		}
+	}
 	nestedInt := false
 	for gi, g := range l.Graphs {
 		has := len(g.Before)+len(g.After) > 0
@@ -332,39 +439,73 @@ func c11ResumeAccount(ctx *vh.Ctx, c *c11Case) {
 type c11ProgEnt struct {
 	L  int   `json:"l"`
 	G  int   `json:"g"`
+	R  int   `json:"r,omitempty"` // run instance of level L (a level inside a cycle runs once per iteration)
 	Op c11Op `json:"op"`
 }
 
 type c11Flattened struct {
 	prog     []c11ProgEnt
-	start    map[int]int // gid -> position of the node's first operation
-	rerunCut map[int]int // gid -> position of the InterruptAndRerun of a rerun node
-	end      map[int]int // gid -> position after the node's last operation
+	start    map[int][]int // gid -> per execution of the node: position of its first operation
+	end      map[int][]int // gid -> per execution: position after its last operation
+	inst     map[int][]int // gid -> per execution: the run instance of the node's level
+	rerunCut map[int]int   // gid -> position of the InterruptAndRerun of a rerun node (its first execution)
 	preN     map[int]int
+	bodyN    map[int]int
+	postN    map[int]int
+	runs     map[int]int // graph level -> number of run instances
 }
 
-// c11FlattenChain: the operations of the whole nest in execution order.  withRerun: a rerun
-// node's pre-handler runs, the body interrupts at once; after the resume the node is
-// re-executed from its pre-handler on the zero input (graph_run.go
-// handleInterruptWithSubGraphAndRerunNodes: rerun tasks get inputZeroValue, no SkipPreHandler).
+// c11LoopOrder: the node indices of a level in execution order (a cycle unrolled).
+func c11LoopOrder(g *c11Graph) []int {
+	var order []int
+	loop := g.LoopN > 0 && g.LoopFrom < len(g.Nodes) && g.LoopTo <= g.LoopFrom
+	for ni := range g.Nodes {
+		order = append(order, ni)
+		if loop && ni == g.LoopFrom {
+			for k := 0; k < g.LoopN; k++ {
+				for x := g.LoopTo; x <= g.LoopFrom; x++ {
+					order = append(order, x)
+				}
+			}
+		}
+	}
+	return order
+}
+
+// c11FlattenChain: the operations of the whole nest in execution order, cycles unrolled.
+// withRerun: a rerun node's pre-handler runs, the body interrupts at once (the first time the node
+// is executed); after the resume the node is re-executed from its pre-handler on the zero input
+// (graph_run.go handleInterruptWithSubGraphAndRerunNodes: rerun tasks get inputZeroValue, no
+// SkipPreHandler).  A graph node that is resumed because its nested graph interrupted does NOT run
+// its pre-handler again (it is in the program once, before the nested operations); every further
+// execution of the node is in the program with its pre-handler — whether it runs is the model's
+// decision (`skipsPre`, see the cut's "subs").
 func c11FlattenChain(l *c11Layout, withRerun bool) *c11Flattened {
-	fl := &c11Flattened{start: map[int]int{}, rerunCut: map[int]int{}, end: map[int]int{}, preN: map[int]int{}}
+	fl := &c11Flattened{start: map[int][]int{}, rerunCut: map[int]int{}, end: map[int][]int{}, inst: map[int][]int{},
+		preN: map[int]int{}, bodyN: map[int]int{}, postN: map[int]int{}, runs: map[int]int{}}
 	var walk func(gi int)
 	walk = func(gi int) {
-		for ni := range l.Graphs[gi].Nodes {
+		inst := fl.runs[gi]
+		fl.runs[gi]++
+		if gi > 0 {
+			// the nested graph starts a run: a graph that declares state generates a fresh one now
+			fl.prog = append(fl.prog, c11ProgEnt{L: gi, G: l.GOwner[gi], R: inst, Op: c11Op{O: "enter"}})
+		}
+		for _, ni := range c11LoopOrder(l.Graphs[gi]) {
 			gid := l.GNodes[gi][ni]
 			n := l.Nodes[gid].Node
-			fl.start[gid] = len(fl.prog)
+			fl.start[gid] = append(fl.start[gid], len(fl.prog))
+			fl.inst[gid] = append(fl.inst[gid], inst)
 			pre := func() {
 				if n.Pre != "" {
-					fl.prog = append(fl.prog, c11ProgEnt{L: gi, G: gid, Op: c11Op{O: "stamp", W: "pre", Tag: fmt.Sprintf("p%d:", gid)}})
+					fl.prog = append(fl.prog, c11ProgEnt{L: gi, G: gid, R: inst, Op: c11Op{O: "stamp", W: "pre", Tag: fmt.Sprintf("p%d:", gid)}})
 					fl.preN[gid]++
 				}
 			}
 			pre()
-			if withRerun && n.Rerun {
+			if _, done := fl.rerunCut[gid]; withRerun && n.Rerun && !done {
 				fl.rerunCut[gid] = len(fl.prog)
-				fl.prog = append(fl.prog, c11ProgEnt{L: gi, G: gid, Op: c11Op{O: "const", V: ""}})
+				fl.prog = append(fl.prog, c11ProgEnt{L: gi, G: gid, R: inst, Op: c11Op{O: "const", V: ""}})
 				pre()
 			}
 			if n.Sub != nil {
@@ -374,18 +515,36 @@ func c11FlattenChain(l *c11Layout, withRerun bool) *c11Flattened {
 					}
 				}
 			} else {
+				fl.bodyN[gid]++
 				for _, o := range n.Body {
-					fl.prog = append(fl.prog, c11ProgEnt{L: gi, G: gid, Op: o})
+					fl.prog = append(fl.prog, c11ProgEnt{L: gi, G: gid, R: inst, Op: o})
 				}
 			}
 			if n.Post != "" {
-				fl.prog = append(fl.prog, c11ProgEnt{L: gi, G: gid, Op: c11Op{O: "stamp", W: "post", Tag: fmt.Sprintf("q%d:", gid)}})
+				fl.prog = append(fl.prog, c11ProgEnt{L: gi, G: gid, R: inst, Op: c11Op{O: "stamp", W: "post", Tag: fmt.Sprintf("q%d:", gid)}})
+				fl.postN[gid]++
 			}
-			fl.end[gid] = len(fl.prog)
+			fl.end[gid] = append(fl.end[gid], len(fl.prog))
 		}
 	}
 	walk(0)
 	return fl
+}
+
+// execAt: the execution of node gid that contains program position p, -1 if none.  Two consecutive
+// executions share a boundary position: an interrupt AFTER a node belongs to the earlier one
+// (first), an interrupt before a node / a rerun to the later one.
+func (fl *c11Flattened) execAt(gid, p int, first bool) int {
+	k := -1
+	for i, st := range fl.start[gid] {
+		if st <= p && p <= fl.end[gid][i] {
+			if first && k >= 0 {
+				continue
+			}
+			k = i
+		}
+	}
+	return k
 }
 
 type c11ChainModel struct {
@@ -564,6 +723,15 @@ func c11ResumeCompare(ctx *vh.Ctx, c *c11Case, o *c11CaseObs) error {
 	var cuts []map[string]any
 	deepest, anyMod, anyNoMod, anyRerun := 0, false, false, false
 	located := true
+	seenInt := map[string]int{} // (kind, node) -> interrupts seen so far = index of the node's execution
+	nth := func(kind string, g int, pos []int) int {
+		k := seenInt[fmt.Sprint(kind, g)]
+		seenInt[fmt.Sprint(kind, g)] = k + 1
+		if k < len(pos) {
+			return pos[k]
+		}
+		return -1
+	}
 	for _, io := range run.Ints {
 		if len(io.Levels) == 0 || io.Forked {
 			located = false
@@ -591,11 +759,17 @@ func c11ResumeCompare(ctx *vh.Ctx, c *c11Case, o *c11CaseObs) error {
 			anyRerun = true
 		case len(last.Before) > 0:
 			if g := keyGid(last.Graph, last.Before[0]); g >= 0 {
-				p = fl.start[g]
+				p = nth("b", g, fl.start[g])
+			}
+			// an interrupt after a node and before its successor are one interrupt: count both
+			for _, k := range last.After {
+				if g := keyGid(last.Graph, k); g >= 0 {
+					nth("a", g, fl.end[g])
+				}
 			}
 		case len(last.After) > 0:
 			if g := keyGid(last.Graph, last.After[0]); g >= 0 {
-				p = fl.end[g]
+				p = nth("a", g, fl.end[g])
 			}
 		}
 		if p < 0 {
@@ -612,7 +786,33 @@ func c11ResumeCompare(ctx *vh.Ctx, c *c11Case, o *c11CaseObs) error {
 		} else {
 			anyNoMod = true
 		}
-		cuts = append(cuts, map[string]any{"p": p, "active": active, "mod": mod})
+		// the graph nodes that are restored as interrupted nested graphs (SkipPreHandler entries of
+		// the checkpoints): the owners of the active nested levels
+		subs := []map[string]any{}
+		inst := []int{0}
+		isAfter := len(last.Rerun) == 0 && len(last.Before) == 0
+		for _, gi := range active[1:] {
+			og := l.GOwner[gi]
+			if og < 0 {
+				located = false
+				break
+			}
+			k := fl.execAt(og, p, isAfter)
+			if k < 0 {
+				located = false
+				break
+			}
+			inst = append(inst, k) // a nested level is run once per execution of the node that embeds it
+			var pre any
+			if l.Nodes[og].Node.Pre != "" {
+				pre = c11Op{O: "stamp", W: "pre", Tag: fmt.Sprintf("p%d:", og)}
+			}
+			subs = append(subs, map[string]any{"g": og, "l": l.Nodes[og].Graph, "r": fl.inst[og][k], "pre": pre})
+		}
+		if !located {
+			break
+		}
+		cuts = append(cuts, map[string]any{"p": p, "active": active, "inst": inst, "mod": mod, "subs": subs})
 	}
 	lvl := "top"
 	if deepest > 0 {
@@ -625,6 +825,13 @@ func c11ResumeCompare(ctx *vh.Ctx, c *c11Case, o *c11CaseObs) error {
 		modS = "y"
 	}
 	suffix = ":lvl=" + lvl + ":mod=" + modS
+	hasLoop := false
+	for _, g := range l.Graphs {
+		hasLoop = hasLoop || g.LoopN > 0
+	}
+	if hasLoop {
+		suffix += ":loop"
+	}
 	ctx.Res.Dist(fmt.Sprintf("resume:interrupts=%d", len(run.Ints)))
 	if len(run.Ints) > 0 {
 		ctx.Res.Dist("resume:interrupted-level=" + lvl)
@@ -685,6 +892,11 @@ func c11ResumeCompare(ctx *vh.Ctx, c *c11Case, o *c11CaseObs) error {
 			f := l.Nodes[gid]
 			no := run.Nodes[f.Path]
 			if no == nil {
+				continue
+			}
+			if fl.runs[gi] > 1 {
+				// a level inside a cycle is run once per iteration, each time with a freshly
+				// generated state: its nodes legitimately saw several objects (the last one is `ids`)
 				continue
 			}
 			for _, sid := range no.StateIDs {
@@ -753,16 +965,9 @@ func c11ResumeCompare(ctx *vh.Ctx, c *c11Case, o *c11CaseObs) error {
 		if no == nil {
 			continue
 		}
-		wantBody := 1
-		if f.Node.Sub != nil {
-			wantBody = 0
-		}
-		wantPost := 0
-		if f.Node.Post != "" {
-			wantPost = 1
-		}
+		wantBody, wantPost := fl.bodyN[gid], fl.postN[gid]
 		if no.PreN != fl.preN[gid] || no.BodyN != wantBody || no.PostN != wantPost {
-			dis("handler-count", fmt.Sprintf("node %s: pre-handler %d, body %d, post-handler %d runs; model %d, %d, %d", f.Path, no.PreN, no.BodyN, no.PostN, fl.preN[gid], wantBody, wantPost), nil, no)
+			dis("handler-count", fmt.Sprintf("node %s: pre-handler %d, body %d, post-handler %d runs; model %d, %d, %d (one pre- and one post-handler run per execution of the node; only the execution restored from a checkpoint of an interrupted nested graph skips the pre-handler)", f.Path, no.PreN, no.BodyN, no.PostN, fl.preN[gid], wantBody, wantPost), nil, no)
 			return nil
 		}
 	}
